@@ -41,7 +41,8 @@ def run(chk: Check):
     scen = (su.refusal_scenarios() + su.first_op_schema_scenarios() + su.rejected_first_add_scenarios()
             + su.crash_scenarios(chk.n(3, 4)))
     chk.exhaustive = True        # crash points: every call of every merge shape listed in the rule
-    su.run_property(chk, 'C10', PROPS, gen, nontrivial, scenarios=scen)
+    su.run_property(chk, 'C10', PROPS, gen, nontrivial, scenarios=scen,
+                    extra=lambda c, cfg: su.declared_associated_scenarios(c))
 
 
 def replay(chk: Check, rp):
